@@ -353,6 +353,10 @@ def s_attach(a):
 def s_op(o):
     if o["op"] == "parse":
         return b"P" + s_list([s_str(x) for x in o["args"]])
+    if o["op"] == "ini":
+        return b"I" + s_str(o["text"]) + s_bool(o.get("asdefaults", False))
+    if o["op"] == "writeini":
+        return b"W" + s_nat(o["iniopts"])
     raise ValueError(o)
 
 
